@@ -306,20 +306,18 @@ Qed.
 Lemma read_repair_backup RQ idle now nprev nbackups reach c w c' i :
   cluster_get RQ true idle now nprev nbackups reach c = (Value w, c') ->
   (i < nbackups)%nat -> reach (HBackup i) = true ->
-  (forall e, c (SBackupFrag (HBackup i)) = Some e -> is_expired now e = false) ->
   match c (SBackupFrag (HBackup i)) with
   | Some e => repaired w (Some e) (c' (SBackupFrag (HBackup i)))
   | None => c' (SBackupFrag (HBackup i)) = None          (* a holder without any copy is not repaired *)
   end.
 Proof.
-  intros H Hi Hr Hexp. destruct (cluster_get_value _ _ _ _ _ _ _ _ _ _ H) as (targets & Hg & ->).
+  intros H Hi Hr. destruct (cluster_get_value _ _ _ _ _ _ _ _ _ _ H) as (targets & Hg & ->).
   apply get_value_targets in Hg. subst targets. unfold apply_repair.
   change (SBackupFrag (HBackup i)) with (repair_slot (HBackup i)) at 2 4.
   set (backups := map (fun i => remote_answer now (reach (HBackup i)) (c (lookup_slot (HBackup i)))) (seq 0 nbackups)).
   set (vs := gather _ _ backups).
   assert (Hnth : nth_error backups i = Some (c (SBackupFrag (HBackup i)))).
-  { subst backups. rewrite nth_error_map_seq by exact Hi. rewrite Hr. cbn [lookup_slot remote_answer].
-    destruct (c (SBackupFrag (HBackup i))) as [e|] eqn:Hc; [|reflexivity]. now rewrite (Hexp e eq_refl). }
+  { subst backups. rewrite nth_error_map_seq by exact Hi. rewrite Hr. reflexivity. }
   destruct (existsb _ (read_repair w vs)) eqn:Hex.
   - apply in_targets in Hex. destruct Hex as (v & Hin & Hn).
     apply gather_backup_unique in Hin. destruct Hin as [Hv Hne]. rewrite Hnth in Hv. injection Hv as <-.
@@ -429,13 +427,50 @@ Lemma read_repair_all (RQ : nat) (idle : bool) (now : Z) (nprev nbackups : nat) 
   cluster_get RQ true idle now nprev nbackups reach c = (Value w, c') ->
   repaired w (c (SPrimary HLocal)) (c' (SPrimary HLocal)) /\
   forall i, (i < nbackups)%nat -> reach (HBackup i) = true ->
-            (forall e, c (SBackupFrag (HBackup i)) = Some e -> is_expired now e = false) ->
             match c (SBackupFrag (HBackup i)) with
             | Some e => repaired w (Some e) (c' (SBackupFrag (HBackup i)))
             | None => c' (SBackupFrag (HBackup i)) = None
             end.
 Proof.
   intros H. split; [eapply read_repair_local; exact H|]. intros i. eapply read_repair_backup; exact H.
+Qed.
+
+(* the read looks at EVERY copy a reachable holder has, expired or not: the value it returns is one of them, it is
+   not expired, and no reachable copy - expired or not - carries a larger timestamp (an expired newer write is
+   never shadowed by an older copy) *)
+Lemma cluster_get_newest (RQ : nat) (rr idle : bool) (now : Z) (nprev nbackups : nat) (reach : holder -> bool)
+      (c c' : copies) (w : entry) :
+  cluster_get RQ rr idle now nprev nbackups reach c = (Value w, c') ->
+  is_expired now w = false /\
+  (c (lookup_slot HLocal) = Some w \/
+   (exists i, (i < nprev)%nat /\ reach (HPrev i) = true /\ c (lookup_slot (HPrev i)) = Some w) \/
+   (exists i, (i < nbackups)%nat /\ reach (HBackup i) = true /\ c (lookup_slot (HBackup i)) = Some w)) /\
+  (forall e, c (lookup_slot HLocal) = Some e -> (e_ts e <= e_ts w)%Z) /\
+  (forall i e, (i < nprev)%nat -> reach (HPrev i) = true -> c (lookup_slot (HPrev i)) = Some e -> (e_ts e <= e_ts w)%Z) /\
+  (forall i e, (i < nbackups)%nat -> reach (HBackup i) = true -> c (lookup_slot (HBackup i)) = Some e -> (e_ts e <= e_ts w)%Z).
+Proof.
+  intros H. destruct (cluster_get_value _ _ _ _ _ _ _ _ _ _ H) as (targets & Hg & _). cbv zeta in Hg.
+  set (prev := map (fun i => remote_answer now (reach (HPrev i)) (c (lookup_slot (HPrev i)))) (seq 0 nprev)) in *.
+  set (backups := map (fun i => remote_answer now (reach (HBackup i)) (c (lookup_slot (HBackup i)))) (seq 0 nbackups)) in *.
+  assert (Hexp : is_expired now w = false).
+  { pose proof (get_cases RQ rr idle now (c (lookup_slot HLocal)) prev backups) as Hc. cbv zeta in Hc. rewrite Hg in Hc.
+    destruct Hc as [[_ Hc]|[(_ & _ & Hc)|[(_ & _ & Hc)|(h & w' & _ & _ & _ & Hc)]]]; try discriminate.
+    destruct (is_expired now w') eqn:Hx; cbn [orb] in Hc; [discriminate|]. destruct idle; [discriminate|].
+    injection Hc as -> _. exact Hx. }
+  destruct (get_newest _ _ _ _ _ _ _ _ _ Hg) as (Hin & Hmax & _).
+  assert (Hp : forall i e, (i < nprev)%nat -> reach (HPrev i) = true -> c (lookup_slot (HPrev i)) = Some e -> In (Some e) prev).
+  { intros i e Hi Hr Hc. apply (nth_error_In prev i). subst prev. rewrite nth_error_map_seq by exact Hi. now rewrite Hr, <- Hc. }
+  assert (Hb : forall i e, (i < nbackups)%nat -> reach (HBackup i) = true -> c (lookup_slot (HBackup i)) = Some e -> In (Some e) backups).
+  { intros i e Hi Hr Hc. apply (nth_error_In backups i). subst backups. rewrite nth_error_map_seq by exact Hi. now rewrite Hr, <- Hc. }
+  split; [exact Hexp|]. split; [|split; [|split]].
+  - destruct Hin as [Hin|Hin]; [left; exact Hin|]. right. apply in_app_or in Hin as [Hin|Hin].
+    + left. subst prev. apply in_map_iff in Hin as (i & Hi & Hs). apply in_seq in Hs. exists i.
+      unfold remote_answer in Hi. destruct (reach (HPrev i)); [|discriminate]. repeat split; [lia|exact Hi].
+    + right. subst backups. apply in_map_iff in Hin as (i & Hi & Hs). apply in_seq in Hs. exists i.
+      unfold remote_answer in Hi. destruct (reach (HBackup i)); [|discriminate]. repeat split; [lia|exact Hi].
+  - intros e He. apply Hmax. left. exact He.
+  - intros i e Hi Hr Hc. apply Hmax. right. apply in_or_app. left. eapply Hp; eauto.
+  - intros i e Hi Hr Hc. apply Hmax. right. apply in_or_app. right. eapply Hb; eauto.
 Qed.
 
 (* when copies with the winner's timestamp are the winner (no two different writes share a timestamp), every
@@ -446,14 +481,12 @@ Lemma read_repair_equal (RQ : nat) (idle : bool) (now : Z) (nprev nbackups : nat
   (forall s e, c s = Some e -> e_ts e = e_ts w -> e = w) ->
   c' (SPrimary HLocal) = Some w /\
   forall i e, (i < nbackups)%nat -> reach (HBackup i) = true -> c (SBackupFrag (HBackup i)) = Some e ->
-              is_expired now e = false -> c' (SBackupFrag (HBackup i)) = Some w.
+              c' (SBackupFrag (HBackup i)) = Some w.
 Proof.
   intros H Hties. destruct (read_repair_all _ _ _ _ _ _ _ _ _ H) as [Hl Hb]. split.
   - unfold repaired in Hl. destruct (c (SPrimary HLocal)) as [e|] eqn:Hc; [|exact Hl].
     destruct (Z.eqb_spec (e_ts e) (e_ts w)) as [Heq|]; [|exact Hl]. rewrite Hl. f_equal. eapply Hties; eauto.
-  - intros i e Hi Hr Hc Hexp. specialize (Hb i Hi Hr). rewrite Hc in Hb.
-    assert (Hx : forall e0, Some e = Some e0 -> is_expired now e0 = false) by (intros e0 [= <-]; exact Hexp).
-    specialize (Hb Hx). unfold repaired in Hb.
+  - intros i e Hi Hr Hc. specialize (Hb i Hi Hr). rewrite Hc in Hb. unfold repaired in Hb.
     destruct (Z.eqb_spec (e_ts e) (e_ts w)) as [Heq|]; [|exact Hb]. rewrite Hb. f_equal. eapply Hties; eauto.
 Qed.
 
